@@ -1,54 +1,135 @@
-CH="qpzry9x8gf2tvdw0s3jn54khce6mua7l"
-# GF(32) = GF(2)[a]/(a^5+a^3+1)
-def gmul(x,y):
-    r=0
+"""Reference Bech32 / BIP173 segwit address codec.
+
+The checksum is computed as a polynomial remainder over GF(32) = GF(2)[a]/(a^5 + a^3 + 1) with the BIP173 generator
+polynomial g(x) = x^6 + 29x^5 + 22x^4 + 20x^3 + 21x^2 + 29x + 18 -- *not* with the bit-twiddled 'polymod' routine of
+the BIP's sample code that the library copies.  Never imports bitcoin.*"""
+
+CHARSET = "qpzry9x8gf2tvdw0s3jn54khce6mua7l"
+GEN = [1, 29, 22, 20, 21, 29, 18]
+
+
+def gmul(x, y):
+    r = 0
     for i in range(5):
-        if (y>>i)&1: r^=x<<i
-    for i in range(8,4,-1):
-        if (r>>i)&1: r^=0b101001<<(i-5)
+        if (y >> i) & 1:
+            r ^= x << i
+    for i in range(8, 4, -1):
+        if (r >> i) & 1:
+            r ^= 0b101001 << (i - 5)
     return r
-GEN=[1,29,22,20,21,29,18]  # x^6 + 29x^5 + 22x^4 + 20x^3 + 21x^2 + 29x + 18
-def polymod_rem(vals):
-    # remainder of (x^len * 1 + sum vals) ... compute c(x) = 1*x^n + v0 x^(n-1)+... mod g(x)
-    rem=[0,0,0,0,0,1]  # coefficients deg5..deg0 of "1"
+
+
+_MUL = [[gmul(a, b) for b in range(32)] for a in range(32)]
+
+
+def poly_rem(vals):
+    """remainder of x^len(vals) + sum(vals[i] x^(len-1-i)) modulo g(x), as 6 coefficients (deg 5 .. deg 0)"""
+    rem = [0, 0, 0, 0, 0, 1]
     for v in vals:
-        # rem = rem*x + v mod g
-        top=rem[0]
-        rem=rem[1:]+[v]
+        top = rem[0]
+        rem = rem[1:] + [v]
         if top:
+            row = _MUL[top]
             for i in range(6):
-                rem[i]^=gmul(top,GEN[i+1])
+                rem[i] ^= row[GEN[i + 1]]
     return rem
-def hrp_expand(h): return [ord(c)>>5 for c in h]+[0]+[ord(c)&31 for c in h]
-def checksum(hrp,data):
-    rem=polymod_rem(hrp_expand(hrp)+data+[0]*6)
-    rem[5]^=1
+
+
+def hrp_expand(h):
+    return [ord(c) >> 5 for c in h] + [0] + [ord(c) & 31 for c in h]
+
+
+def checksum(hrp, data):
+    rem = poly_rem(hrp_expand(hrp) + list(data) + [0] * 6)
+    rem[5] ^= 1
     return rem
-def verify(hrp,data): return polymod_rem(hrp_expand(hrp)+data)==[0,0,0,0,0,1]
-def encode(hrp,ver,prog):
-    bits=''.join(format(b,'08b') for b in prog)
-    if len(bits)%5: bits+='0'*(5-len(bits)%5)
-    data=[ver]+[int(bits[i:i+5],2) for i in range(0,len(bits),5)]
-    return hrp+'1'+''.join(CH[d] for d in data+checksum(hrp,data))
-def decode(hrp,s):
-    if any(ord(c)<33 or ord(c)>126 for c in s): return None
-    if s.lower()!=s and s.upper()!=s: return None
-    s=s.lower()
-    if len(s)>90: return None
-    p=s.rfind('1')
-    if p<1 or p+7>len(s): return None
-    h=s[:p]; d=s[p+1:]
-    if any(c not in CH for c in d): return None
-    data=[CH.index(c) for c in d]
-    if not verify(h,data): return None
-    if h!=hrp: return None
-    data=data[:-6]
-    if not data: return None
-    ver=data[0]; bits=''.join(format(x,'05b') for x in data[1:])
-    nb=len(bits)//8; pad=bits[nb*8:]
-    if len(pad)>=5 or '1' in pad: return None
-    prog=bytes(int(bits[i*8:i*8+8],2) for i in range(nb))
-    if not 2<=len(prog)<=40: return None
-    if ver>16: return None
-    if ver==0 and len(prog) not in (20,32): return None
-    return ver,prog
+
+
+def verify(hrp, data):
+    return poly_rem(hrp_expand(hrp) + list(data)) == [0, 0, 0, 0, 0, 1]
+
+
+def to5(prog):
+    bits = ''.join(format(b, '08b') for b in prog)
+    if len(bits) % 5:
+        bits += '0' * (5 - len(bits) % 5)
+    return [int(bits[i:i + 5], 2) for i in range(0, len(bits), 5)]
+
+
+def encode(hrp, ver, prog):
+    data = [ver] + to5(prog)
+    return hrp + '1' + ''.join(CHARSET[d] for d in data + checksum(hrp, data))
+
+
+def decode(hrp, s):
+    """-> (version, program bytes) or None, per BIP173 (expected prefix hrp given in lower case)"""
+    if any(ord(c) < 33 or ord(c) > 126 for c in s):
+        return None
+    if s.lower() != s and s.upper() != s:
+        return None
+    s = s.lower()
+    if len(s) > 90:
+        return None
+    p = s.rfind('1')
+    if p < 1 or p + 7 > len(s):
+        return None
+    h = s[:p]
+    d = s[p + 1:]
+    if any(c not in CHARSET for c in d):
+        return None
+    data = [CHARSET.index(c) for c in d]
+    if not verify(h, data):
+        return None
+    if h != hrp:
+        return None
+    data = data[:-6]
+    if not data:
+        return None
+    ver = data[0]
+    bits = ''.join(format(x, '05b') for x in data[1:])
+    nb = len(bits) // 8
+    pad = bits[nb * 8:]
+    if len(pad) >= 5 or '1' in pad:
+        return None
+    prog = bytes(int(bits[i * 8:i * 8 + 8], 2) for i in range(nb))
+    if not 2 <= len(prog) <= 40:
+        return None
+    if ver > 16:
+        return None
+    if ver == 0 and len(prog) not in (20, 32):
+        return None
+    return ver, prog
+
+
+# ----------------------------------------------------------------------------------------------------------------
+# Fast syndrome for substitution errors in the data part (linearity of the code): a string that differs from a valid
+# string by error values e_j at exponents k_j passes the checksum iff sum_j e_j * x^(k_j) == 0 (mod g).
+
+_BASIS = [[0, 0, 0, 0, 0, 1]]
+
+
+def _basis(k):
+    while len(_BASIS) <= k:
+        b = _BASIS[-1]
+        top = b[0]
+        nb = b[1:] + [0]
+        if top:
+            row = _MUL[top]
+            for i in range(6):
+                nb[i] ^= row[GEN[i + 1]]
+        _BASIS.append(nb)
+    return _BASIS[k]
+
+
+def substitution_syndrome(total_len, subs):
+    """subs: iterable of (char index in the address, old char, new char) within the data part.  Returns the
+    6-coefficient syndrome; all zero iff the corrupted string still satisfies the checksum."""
+    syn = [0] * 6
+    for p, old, new in subs:
+        ev = CHARSET.index(old) ^ CHARSET.index(new)
+        if ev:
+            row = _MUL[ev]
+            b = _basis(total_len - 1 - p)
+            for i in range(6):
+                syn[i] ^= row[b[i]]
+    return syn
